@@ -168,10 +168,12 @@ PROPS = {
         "quick": [
             {"test": "TestC20Cache", "checks": 6000, "shards": 3, "gomaxprocs": [4, 16, 2]},
             {"test": "TestC20Cache", "checks": 600, "shards": 2, "race": True, "gomaxprocs": [4, 16]},
+            {"test": "TestC20Many", "checks": 120, "shards": 2},
         ],
         "thorough": [
             {"test": "TestC20Cache", "checks": 480000, "shards": 12, "gomaxprocs": [4, 16, 2, 8]},
             {"test": "TestC20Cache", "checks": 32000, "shards": 8, "race": True, "gomaxprocs": [4, 16, 2, 8]},
+            {"test": "TestC20Many", "checks": 3000, "shards": 4},
         ],
         "assumptions": [
             "a history after which no cache operation returns for 120 s is reported as a deadlock (an operation takes micro- to milliseconds; the bound is 5-6 orders of magnitude above that)",
@@ -186,12 +188,14 @@ PROPS = {
             {"test": "TestC03RouteEnum", "kind": "enum", "shards": 6},
             {"test": "TestC03BanExtends", "kind": "plain"},
             {"test": "TestC03History", "checks": 30000, "shards": 3},
+            {"test": "TestC03Concurrent", "checks": 240, "shards": 8, "gomaxprocs": [4, 16]},
         ],
         "thorough": [
             {"test": "TestC03Route", "checks": 1600000, "shards": 8},
             {"test": "TestC03RouteEnum", "kind": "enum", "shards": 4},
             {"test": "TestC03BanExtends", "kind": "plain"},
             {"test": "TestC03History", "checks": 1600000, "shards": 8},
+            {"test": "TestC03Concurrent", "checks": 8000, "shards": 16, "gomaxprocs": [4, 16, 2]},
         ],
         "assumptions": [
             "a route is only judged when its own scaffolding does not use the banned name and when the same template compiles in a set without the ban",
